@@ -316,26 +316,35 @@ theorem compile_wellformed (env : Env) (file : AFile) (n0 : Nat) (G : List Strin
   exact ⟨_, hfind, hclean.1, hclean.2, (Goml.Dce.dce_fn_scope_sound _ hclean.1 hclean.2).1,
     (Goml.Dce.dce_fn_scope_sound _ hclean.1 hclean.2).2⟩
 
-/-- **T2, typing half `compile_wellformed_typed_partial`**: for a stage (a) function `f` of a closed set `G` (`stdFn`:
-    parameters, result and every annotation are unit / bool / string / an integer type of a Go width; operators, calls of
-    functions of `G` and of the printing builtins, `let`, `if`, `while`) the compiled Go function obeys the **typing** rules
-    of `Go.check` — every expression has the Go type of its ANF annotation, operands agree, conditions are `bool`, call
-    arguments, assignments, initialisers and the `return` are assignable, integer literals fit their type, expression
-    statements are calls, the body ends in a `return` — in the typing context of the emitted file.
-    *Partial* in two ways: (i) stage (a) only (struct / enum / `Ref` / tuple / array values and `match` are not covered:
-    they need the struct table with field types and interface satisfaction of the variant structs); (ii) `Go.check` itself
-    is written with `partial def`s, opaque to the kernel, so the statement is about its total mirror `GoTyping.fnOKT`
-    (`Model/GoTyping.lean`), which `gomlmodel gocomp` compares with `Go.check` on every function of every real emitted file
-    on every run (8 090 functions agree, 82 of them on a typing *error*, 0 disagree).  No separate `Wt` hypothesis: the
-    fragment check `fragA` is itself a type checker of the ANF (every variable at its binder's type, every operator and
-    call at its signature) and is what the proof uses. -/
+/-- **T2, typing half `compile_wellformed_typed_partial`**: for a function `f` of a closed set `G` that is inside the part
+    of the fragment the typing half covers (`stdFn`: parameters, result and every annotation are unit / bool / string / an
+    integer type of a Go width / a struct type — closure environments included — / a function type / a reference, tuple or
+    array of those; operators; calls of functions of `G` — also through a local of function type, also with function names
+    as arguments —, of the printing builtins and of the reference and array helpers (`ref__T`, `ref_get__T`, `ref_set__T`,
+    `array_get__T`, `array_set__T`: an index of type `int32`, the helper's parameter type); construction and field access of
+    admitted structs, tuples (of a tuple type whose struct the file declares) and arrays; `let`, `if`, `while`),
+    in a file whose struct declarations carry the Go types of the fields (`typedTablesOK`: decidable, on the model's own
+    output), the compiled Go function obeys the **typing** rules of `Go.check` — every expression has the Go type of its
+    ANF annotation (up to `norm`: the result type of a call is the normalised one), operands agree, conditions are `bool`,
+    call arguments, fields and elements of composite literals, assignments, initialisers and the `return` are assignable,
+    integer literals fit their type, expression statements are calls, the body ends in a `return` — in the typing context
+    of the emitted file.
+    *Partial* in two ways: (i) not all of the fragment (enum values and `match`, trait objects and `go` are not covered
+    yet; `Vec` operations and `string_len` cannot be: the mirror answers
+    "unknown" on `append`, `len` and conversions); (ii) `Go.check` itself is written with `partial def`s, opaque to the
+    kernel, so the statement is about its total mirror `GoTyping.fnOKT` (`Model/GoTyping.lean`), which `gomlmodel gocomp`
+    compares with `Go.check` on every function of every real emitted file on every run (0 disagree).  No separate `Wt`
+    hypothesis: the fragment check `fragA` is itself a type checker of the ANF (every variable at its binder's type, every
+    operator and call at its signature) and is what the proof uses. -/
 theorem compile_wellformed_typed_partial (env : Env) (file : AFile) (n0 : Nat) (G : List String)
-    (hG : closedOK env file n0 G = true) (f : AFn) (hf : f ∈ file) (hfG : f.name ∈ G) (hstd : stdFn f = true) :
+    (hG : closedOK env file n0 G = true) (hT : typedTablesOK env file n0 = true) (f : AFn) (hf : f ∈ file) (hfG : f.name ∈ G)
+    (hstd : stdFn env file f = true) :
     ∃ gf, (goFilePreSt env file n0).1.findFunc (fnName f.name) = some gf ∧
       Goml.GoTyping.fnOKT (Goml.GoTyping.mkTCtx (goFilePreSt env file n0).1) gf = .ok () := by
   have hl := link_of_closed hG (P := progOf file) rfl
   obtain ⟨st, hfind, hlocal⟩ := hl.fnGo f hf hfG
-  exact ⟨_, hfind, fn_typed (tlink_of_link hl) hlocal hstd⟩
+  simp only [typedTablesOK, Bool.and_eq_true] at hT
+  exact ⟨_, hfind, fn_typed (tlink_of_link hl hT.1 hT.2) hlocal hstd⟩
 
 /-! ## non-vacuity: a concrete file inside the fragment -/
 section Examples
@@ -365,10 +374,10 @@ example : InGoFragment {} exFile 0 exMain ∧ InGoFragment {} exFile 0 exAdd := 
 
 /-- both are stage (a) functions, so the typing half of T2 applies to them: the functions the back end emits for
     them are well typed -/
-example : stdFn exMain = true ∧ stdFn exAdd = true := by decide +kernel
+example : stdFn {} exFile exMain = true ∧ stdFn {} exFile exAdd = true ∧ typedTablesOK {} exFile 0 = true := by decide +kernel
 example : ∃ gf, (goFilePreSt {} exFile 0).1.findFunc "main0" = some gf ∧
     Goml.GoTyping.fnOKT (Goml.GoTyping.mkTCtx (goFilePreSt {} exFile 0).1) gf = .ok () :=
-  compile_wellformed_typed_partial {} exFile 0 (goodFns {} exFile 0) (by decide +kernel) exMain (by simp [exFile])
+  compile_wellformed_typed_partial {} exFile 0 (goodFns {} exFile 0) (by decide +kernel) (by decide +kernel) exMain (by simp [exFile])
     (by decide +kernel) (by decide +kernel)
 
 /-- the hypotheses of `compile_preserves_run` hold of it and its `Sem` run is definite -/
@@ -391,6 +400,9 @@ private def exMk : AFn :=
     body := .ret (.constr (.struct "P") [.var "a/0" t32, .var "a/0" t32] (.struct "P")) }
 example : InGoFragment envP [exSum, exMk] 0 exSum ∧ InGoFragment envP [exSum, exMk] 0 exMk := by
   constructor <;> (unfold InGoFragment; decide +kernel)
+/-- and the typing half of T2 applies to both (the struct table carries the field types) -/
+example : stdFn envP [exSum, exMk] exSum = true ∧ stdFn envP [exSum, exMk] exMk = true ∧
+    typedTablesOK envP [exSum, exMk] 0 = true := by decide +kernel
 
 /-- enum values and `match` are inside: `enum Opt { None, Some(int32) }`, `fn get(o) { match o { None => 0, Some(x) => x } }`
     (type switch, payload read in the arm that fixes the variant), `fn mk(a) { Some(a) }`, and a `main` that matches on
@@ -463,6 +475,7 @@ private def exMainR : AFn :=
 private def exFileR : AFile := [exBump, exMainR]
 example : InGoFragment {} exFileR 0 exBump ∧ InGoFragment {} exFileR 0 exMainR := by
   constructor <;> (unfold InGoFragment; decide +kernel)
+example : stdFn {} exFileR exBump = true ∧ stdFn {} exFileR exMainR = true ∧ typedTablesOK {} exFileR 0 = true := by decide +kernel
 example : (Sem.run 200 (progOf exFileR)).status = "ok" ∧ (Sem.run 200 (progOf exFileR)).out = "42\n" := by
   decide +kernel
 
@@ -476,6 +489,8 @@ private def exFst : AFn :=
   { name := "fst", params := [("p/0", tPair)], ret := t32, body := .ret (.proj (.var "p/0" tPair) 0 t32) }
 example : InGoFragment {} [exTuple, exFst] 0 exTuple ∧ InGoFragment {} [exTuple, exFst] 0 exFst := by
   constructor <;> (unfold InGoFragment; decide +kernel)
+example : stdFn {} [exTuple, exFst] exTuple = true ∧ stdFn {} [exTuple, exFst] exFst = true ∧
+    typedTablesOK {} [exTuple, exFst] 0 = true := by decide +kernel
 
 /-- arrays are inside: `fn mk(a) { [a, a] }`, `fn upd(x, i) { array_get(array_set(x, i, 7), 0) }` (out-of-range
     indexing panics on both sides) -/
@@ -489,6 +504,7 @@ private def exUpd : AFn :=
       (.ret (.call (.var "array_get" (.func [tArr, t32] t32)) [.var "y/2" tArr, litI 0] t32)) t32 }
 example : InGoFragment {} [exArray, exUpd] 0 exArray ∧ InGoFragment {} [exArray, exUpd] 0 exUpd := by
   constructor <;> (unfold InGoFragment; decide +kernel)
+example : stdFn {} [exArray, exUpd] exArray = true ∧ stdFn {} [exArray, exUpd] exUpd = true := by decide +kernel
 
 /-- `Vec` is inside (under the no-spare-capacity policy of `runGo`'s default `capPolicy = 0`, which is part of `WRel`):
     `fn push2(v, x) { vec_push(vec_push(v, x), x) }`, and a `main` that builds a vector, reads it back and prints its length
